@@ -1,4 +1,5 @@
-import Storrent.Model.Meta
+import Storrent.Model.MetaDecode
+import Storrent.Lemmas.Bencode
 /-
 C13 — Torrent files: total parsing, consistent geometry, identity preserved.
 Theorems about `Meta.metadataComplete` (Torrent.MetadataComplete as repaired), over every
@@ -975,5 +976,170 @@ example : exInfo.WF := by
     have : 2 * (rest.length + 1 + 1) + 2 = (2 * rest.length + 4) + 1 + 1 := by omega
     rw [this]
     simp [rawScan]
+
+/-! ### raw bytes: canonical key tokens, ReadTorrent over any byte string -/
+
+theorem findByte_skip (b : UInt8) : ∀ (ds t : Bytes) (k : Nat), (∀ d ∈ ds, d ≠ b) →
+    findByte b (ds ++ b :: t) k = some (k + ds.length)
+  | [], t, k, _ => by simp [findByte]
+  | d :: ds, t, k, h => by
+    have hd : d ≠ b := h d (by simp)
+    simp only [List.cons_append, findByte, hd, if_false]
+    rw [findByte_skip b ds t (k + 1) (fun x hx => h x (by simp [hx]))]
+    simp only [List.length_cons]; congr 1; omega
+
+theorem allDigits_of : ∀ (ds : Bytes), (∀ d ∈ ds, Bencode.isDigit d = true) → allDigits ds = true
+  | [], _ => rfl
+  | d :: ds, h => by
+    have hd := h d (by simp)
+    unfold Bencode.isDigit at hd
+    simp only [allDigits, hd, Bool.true_and]
+    exact allDigits_of ds (fun x hx => h x (by simp [hx]))
+
+theorem parseLen_natDigits (n : Nat) (hn : n ≤ 2147483647) : parseLen (Bencode.natDigits n) = some n := by
+  obtain ⟨d, ds, hds, hd⟩ := Bencode.natDigits_cons n
+  have hall := allDigits_of _ (Bencode.natDigits_all n)
+  have hval : digitsVal (Bencode.natDigits n) = n := Bencode.natDigits_val n
+  have hb := Bencode.isDigit_bounds d hd
+  have h43 : d ≠ 43 := by intro h; subst h; simp at hb
+  have h45 : d ≠ 45 := by intro h; subst h; simp at hb
+  rw [hds] at hall hval ⊢
+  unfold parseLen
+  split
+  · simp at *
+  · rename_i ds' heq; simp only [List.cons.injEq] at heq; exact absurd heq.1 h43
+  · rename_i ds' heq; simp only [List.cons.injEq] at heq; exact absurd heq.1 h45
+  · simp [hall, hval, hn]
+
+/-- the canonical token of a key scans as that key, whatever follows -/
+theorem rawStr_encStr (k rest : Bytes) (hk : k.length ≤ 2147483647) :
+    rawStr (Bencode.encStr k ++ rest) = some (k, rest) := by
+  unfold rawStr Bencode.encStr
+  have hne : ∀ d ∈ Bencode.natDigits k.length, d ≠ 58 := by
+    intro d hd h
+    have := Bencode.natDigits_all k.length d hd
+    rw [h, Bencode.not_digit_58] at this
+    simp at this
+  have hf : findByte 58 (Bencode.natDigits k.length ++ [58] ++ k ++ rest) 0 =
+      some (Bencode.natDigits k.length).length := by
+    have := findByte_skip 58 (Bencode.natDigits k.length) (k ++ rest) 0 hne
+    simpa [List.append_assoc] using this
+  rw [hf]
+  simp only [List.append_assoc, List.singleton_append, List.cons_append, List.nil_append,
+    List.take_left']
+  rw [parseLen_natDigits _ hk]
+  have hd : List.drop ((Bencode.natDigits k.length).length + 1)
+      (Bencode.natDigits k.length ++ 58 :: (k ++ rest)) = k ++ rest := by
+    rw [List.drop_append, List.drop_eq_nil_of_le (by omega)]
+    have : (Bencode.natDigits k.length).length + 1 - (Bencode.natDigits k.length).length = 1 := by omega
+    rw [this]; rfl
+  simp only [hd, List.length_append, List.take_left', List.drop_left']
+  simp
+
+/-- (1a) THE INFO-HASH IS THE SHA-1 OF THE SPAN OF `<V>` AS IT APPEARS IN THE FILE.
+    For a torrent file `d <k₁><v₁> … <kₙ><vₙ> e <trailing>` with canonically encoded keys in
+    ANY order, any unknown keys, and values that are well-formed for the scanner — whatever
+    they contain: non-canonical integers, unsorted or duplicated inner keys — the bytes
+    that are hashed are exactly the bytes of the value of the last `info` key.  Nothing
+    is re-encoded, so no re-encoding can change the identity. -/
+theorem C13_infohash_raw_bytes (kvs : List (Bytes × Bytes)) (trailing : Bytes)
+    (hk : ∀ kv ∈ kvs, kv.1.length ≤ 2147483647)
+    (hv : ∀ kv ∈ kvs, ∀ rest, rawVal (kv.2 ++ rest) = some rest) :
+    let es := kvs.map (fun kv => ({ k := kv.1, ke := Bencode.encStr kv.1, v := kv.2 } : Entry))
+    let file := 100 :: (flat es ++ 101 :: trailing)
+    (infoSlice file).map (sliceBytes file) = lastInfo es none := by
+  intro es file
+  apply C13_infohash_raw
+  intro e he
+  simp only [es, List.mem_map] at he
+  obtain ⟨kv, hkv, rfl⟩ := he
+  refine ⟨fun rest => rawStr_encStr _ _ (hk kv hkv), hv kv hkv, ?_⟩
+  obtain ⟨d, ds, hds, hd⟩ := Bencode.encStr_cons kv.1
+  refine ⟨d, ds, hds, ?_⟩
+  intro h; subst h
+  rw [Bencode.not_digit_101] at hd; simp at hd
+
+theorem bind_id_some {α : Type} {x : Option (Option α)} {a : α} (h : x.bind id = some a) :
+    x = some (some a) := by
+  cases x with
+  | none => simp at h
+  | some y => simp at h; rw [h]
+
+/-- (1b) ReadTorrent over ANY byte string, with the Lean decoder: no fault.  The decoder's
+    loops are fuelled by the input length, so nesting depth is immaterial (the Go decoder
+    recurses per nesting level: the recorded zeebo finding is exactly "depth beyond the
+    goroutine stack", the one kind of input on which the real decoder faults) -/
+theorem C13_parse_total_bytes (bs : Bytes) (w : String) : readTorrentBytes bs ≠ .panic w := by
+  unfold readTorrentBytes
+  split
+  · simp
+  · simp only
+    split
+    · simp
+    · rename_i bi _
+      split
+      · simp
+      · simp
+      · rename_i w' hw
+        exact absurd hw (C13_no_panic 0 (by omega) bi w')
+
+/-- … and an accepted byte string yields: the raw `info` value exactly as it lies in the
+    file (its SHA-1 is the identity), decoded by `decodeBInfo`, with a self-consistent
+    geometry and a usable namespace -/
+theorem C13_readtorrent_bytes_valid {bs info : Bytes} {g : Geom}
+    (h : readTorrentBytes bs = .ok info g) :
+    (∃ ol bi, topInfo bs = some ol ∧ info = sliceBytes bs ol ∧ decodeBInfo info = some bi ∧
+      metadataComplete 0 bi = .ok g) ∧
+    g.Valid ∧ g.PathsNonEmpty ∧ validComponent g.name = true ∧
+    g.files.Pairwise (fun a b => a.path ≠ b.path) := by
+  unfold readTorrentBytes at h
+  split at h
+  · simp at h
+  · rename_i ol hol
+    simp only at h
+    split at h
+    · simp at h
+    · rename_i bi hbi
+      split at h
+      · rename_i g' hg
+        simp only [RtRes.ok.injEq] at h
+        obtain ⟨h1, h2⟩ := h
+        subst h1 h2
+        have hw := C13_paths_wellformed hg
+        exact ⟨⟨ol, bi, hol, rfl, hbi, hg⟩, C13_geometry hg, C13_paths_nonempty hg, hw.1, hw.2.2.2.1⟩
+      · simp at h
+      · simp at h
+
+/-- MetadataComplete on bytes (what a magnet's completed buffer goes through): no fault, and
+    acceptance implies a valid geometry -/
+theorem C13_metadataCompleteBytes_total (info : Bytes) (w : String) :
+    metadataCompleteBytes info ≠ .panic w := by
+  unfold metadataCompleteBytes
+  split
+  · simp
+  · exact C13_no_panic 0 (by omega) _ w
+
+/-! ### (4) non-vacuity on raw bytes: a real (small) .torrent file -/
+
+/-- `d8:announce3:a:b7:comment2:hi4:infod6:lengthi5e4:name1:x12:piece lengthi16384e6:pieces20:ABC…Tee` -/
+def exFile : Bytes := [100, 56, 58, 97, 110, 110, 111, 117, 110, 99, 101, 51, 58, 97, 58, 98, 55, 58, 99, 111, 109, 109, 101, 110, 116, 50, 58, 104, 105, 52, 58, 105, 110, 102, 111, 100, 54, 58, 108, 101, 110, 103, 116, 104, 105, 53, 101, 52, 58, 110, 97, 109, 101, 49, 58, 120, 49, 50, 58, 112, 105, 101, 99, 101, 32, 108, 101, 110, 103, 116, 104, 105, 49, 54, 51, 56, 52, 101, 54, 58, 112, 105, 101, 99, 101, 115, 50, 48, 58, 65, 66, 67, 68, 69, 70, 71, 72, 73, 74, 75, 76, 77, 78, 79, 80, 81, 82, 83, 84, 101, 101]
+/-- the same entries in another order -/
+def exFile2 : Bytes := [100, 55, 58, 99, 111, 109, 109, 101, 110, 116, 50, 58, 104, 105, 52, 58, 105, 110, 102, 111, 100, 54, 58, 108, 101, 110, 103, 116, 104, 105, 53, 101, 52, 58, 110, 97, 109, 101, 49, 58, 120, 49, 50, 58, 112, 105, 101, 99, 101, 32, 108, 101, 110, 103, 116, 104, 105, 49, 54, 51, 56, 52, 101, 54, 58, 112, 105, 101, 99, 101, 115, 50, 48, 58, 65, 66, 67, 68, 69, 70, 71, 72, 73, 74, 75, 76, 77, 78, 79, 80, 81, 82, 83, 84, 101, 56, 58, 97, 110, 110, 111, 117, 110, 99, 101, 51, 58, 97, 58, 98, 101]
+def exInfoBytes : Bytes := [100, 54, 58, 108, 101, 110, 103, 116, 104, 105, 53, 101, 52, 58, 110, 97, 109, 101, 49, 58, 120, 49, 50, 58, 112, 105, 101, 99, 101, 32, 108, 101, 110, 103, 116, 104, 105, 49, 54, 51, 56, 52, 101, 54, 58, 112, 105, 101, 99, 101, 115, 50, 48, 58, 65, 66, 67, 68, 69, 70, 71, 72, 73, 74, 75, 76, 77, 78, 79, 80, 81, 82, 83, 84, 101]
+
+example : readTorrentBytes exFile = .ok exInfoBytes
+    { name := [120], pieceLength := 16384, length := 5, multi := false, files := [],
+      nInFlight := 1, nPieces := 1, nHashes := 1 } := by decide +kernel
+-- key order and unknown keys do not change the identity: same raw info value
+example : (infoSlice exFile).map (sliceBytes exFile) = some exInfoBytes := by decide +kernel
+example : (infoSlice exFile2).map (sliceBytes exFile2) = some exInfoBytes := by decide +kernel
+-- WriteTorrent's bytes for this torrent, read back over bytes: same info, same geometry
+example : readTorrentBytes (writeTorrentBytes exInfoBytes 0 (writeFields [[[97, 58, 98]]] [])) =
+    readTorrentBytes exFile := by decide +kernel
+example : writeTorrentBytes exInfoBytes 0 (writeFields [[[97, 58, 98]]] []) =
+    [100] ++ Bencode.encStr kAnnounce ++ Bencode.encStr [97, 58, 98] ++ Bencode.encStr kInfo ++
+      exInfoBytes ++ [101] := by decide +kernel
+-- deep nesting is no fault for the fuelled decoder (here 300 levels; any depth by the theorem)
+example : readTorrentBytes ([100, 49, 58, 97] ++ List.replicate 300 108) = .noInfo := by decide +kernel
 
 end Storrent.Meta
